@@ -280,6 +280,11 @@ def keepaliveOpts (cfg : Cfg) (w : Writer) : List EOpt :=
 def writerOptions (cfg : Cfg) (w : Writer) : List EOpt :=
   (match w.opt with | some o => o.options | none => []) ++ cookieOpts w ++ nsidOpts cfg w
 
+/-- `keepExtendedErrors`: an OPT that arrived with the response keeps only its
+extended errors (and ECS, which `stripECS` removes right after). -/
+def keepExtendedErrors (os : List EOpt) : List EOpt :=
+  os.filter (fun o => o.code == codeEDE || o.code == codeECS)
+
 def finishOptions (cfg : Cfg) (w : Writer) (os : List EOpt) : List EOpt :=
   stripKeepalive (stripECS os) ++ keepaliveOpts cfg w
 
@@ -292,7 +297,7 @@ def shapeOpt (cfg : Cfg) (w : Writer) (m : Msg) : Msg :=
                      options := finishOptions cfg w (writerOptions cfg w) }
     { m with extra := m.extra ++ [.opt o true] }
   | some (ro, own) =>
-    let merged := if own then writerOptions cfg w else ro.options ++ writerOptions cfg w
+    let merged := if own then writerOptions cfg w else keepExtendedErrors ro.options ++ writerOptions cfg w
     let base : Opt := if own then w.opt.getD ro else ro
     let o : Opt := { udp := w.respUDP, doBit := w.do_, version := base.version,
                      options := finishOptions cfg w merged }
@@ -365,7 +370,8 @@ def serveDNS (L Lu : Msg → Nat) (c : Consts) (cfg : Cfg) (proto : Proto) (q : 
   if q.opcode > 0 then some (notSupported q) else
   let s := setEdns0 c cfg.ecs q.opt
   if s.opt.version ≠ 0 then
-    some (cancelWithRcode (normalised q { s with opt := { s.opt with version := 0 } }) rcodeBadVers s.do_)
+    some (cancelWithRcode (normalised q { s with opt := { s.opt with version := 0, options := stripECS s.opt.options } })
+            rcodeBadVers s.do_)
   else
     (next (normalised q s)).map (writeMsg L Lu cfg (writerDecoded c proto q s))
 
